@@ -894,8 +894,10 @@ def twice_case(ctx, rng):
     if key not in _TWICE_PARSER:
         # (blanks and tabs are what this tokenizer skips: the text is given as one str, its lines are cut at the line
         # breaks and stripped on the right before the tokenizer sees them)
-        tok = r"(?P<SPACE>[ \t]+)|(?P<COMMENT>\#.*)|(?P<WORD>[a-z0-9_]+)|(?P<ARROW>->)|(?P<BO>\[)|(?P<BC>\])|(?P<COMMA>,)|(?P<SEMI>;)"
-        syn = {'ARROW': '->', 'BO': '[', 'BC': ']', 'COMMA': ',', 'SEMI': ';'}
+        # (remarks to the end of the line are reported as COMMENT; the opening of a block comment is a pattern that is
+        # itself called COMMENT - it has no synonym - and a multi-line token)
+        tok = r"(?P<SPACE>[ \t]+)|(?P<REM>\#.*)|(?P<COMMENT>/\*)|(?P<WORD>[a-z0-9_]+)|(?P<ARROW>->)|(?P<BO>\[)|(?P<BC>\])|(?P<COMMA>,)|(?P<SEMI>;)"
+        syn = {'ARROW': '->', 'BO': '[', 'BC': ']', 'COMMA': ',', 'SEMI': ';', 'REM': 'COMMENT'}
         if kind == "rule":
             prods = {'E': [('RULE',)], 'RULE': [('WORD', 'ARGS', '->', 'WORD', 'ARGS', ';')],
                      'ARGS': ListProds('[', 'WORD', ',', ']', optional=True)}
@@ -903,7 +905,8 @@ def twice_case(ctx, rng):
             prods = {'E': [('DECL',)], 'DECL': [('WORD', 'DIMS', 'VALUES', ';')],
                      'DIMS': ListProds('[', 'WORD', ',', ']', optional=True),
                      'VALUES': ListProds('[', 'WORD', ',', ']')}
-        _TWICE_PARSER[key] = llparser.LLParser(tok, synonyms=syn, productions=prods, smart_factorization=smart)
+        _TWICE_PARSER[key] = llparser.LLParser(tok, synonyms=syn, productions=prods, smart_factorization=smart,
+                                               span_matchers={'COMMENT': r"(?P<END_COMMENT>(.|\n)*?)\*/"})
     ctx.evaluated()
 
     def gen_list(may_be_absent):
@@ -926,6 +929,15 @@ def twice_case(ctx, rng):
     else:
         text = "m" + sep(rng) + text_of(first) + ws(rng) + text_of(second) + ws(rng) + ";"
         want = ['m', first, second, ';']
+    if "#" not in text and rng.random() < 0.7:
+        # block comments (also over several lines) where blanks are (not in texts with remarks: a block comment that
+        # opens inside a remark does not open)
+        parts = text.split(" ")
+        for k in range(1, len(parts)):
+            if rng.random() < 0.3:
+                parts[k] = rng.choice(["/* x */", "/* a, ]\n ; */", "/**/"]) + " " + parts[k]
+        text = " ".join(parts)
+        ctx.count("texts_with_block_comments_whose_opening_pattern_has_no_synonym")
     if rng.random() < 0.4:
         # the file came from a machine whose line ends are CR LF (also behind a blank or a comment)
         text = text.replace("\n", rng.choice(["\r\n", " \r\n", "\t\r\n"]))
